@@ -701,3 +701,29 @@ def u1_duration_units(ctx):
             ok = ctor == want or (want == "from_secs" and ctor.startswith("from_secs"))
             r.add(fam_name(b), "Duration from `%s` uses the unit in its name" % src, ok, where(b, bi), "%s" % ctor if ok else "`%s` is named in another unit than Duration::%s takes: the period is off by orders of magnitude" % (src, ctor))
     return r
+
+
+def o1b_listing_follows_links(ctx):
+    r = RuleResult(
+        "O1b",
+        "which directory entries count as data files does not depend on how they are stored: the listing in utils::sorted_fileids tests file-ness through the path (Path::is_file / fs::metadata, which follow symbolic links), not through DirEntry::file_type, DirEntry::metadata or fs::symlink_metadata (which describe the link itself) — a closed segment that was moved to another volume and linked back is otherwise skipped by recovery: its keys are gone and it has no statistics",
+        floor=1,
+    )
+    prog = ctx.prog
+    fam = prog.family("storage::bitcask::utils::sorted_fileids")
+    if not fam:
+        r.unrec("storage::bitcask::utils::sorted_fileids", "listing function", "src/storage/bitcask/utils.rs", "not found")
+        return r
+    DENY = ("std::fs::DirEntry::file_type", "std::fs::DirEntry::metadata", "std::fs::symlink_metadata", "std::path::Path::symlink_metadata", "std::path::Path::is_symlink", "std::fs::FileType::is_symlink")
+    n = 0
+    for b in fam:
+        for bi, t in b.calls():
+            if bi not in b.live_blocks():
+                continue
+            cn = strip_generics(t.get("callee")) or ""
+            if cn in DENY:
+                n += 1
+                r.bad(fam_name(b), "file-ness is tested through the path, following links", where(b, bi), "%s describes the directory entry itself: a data file reached through a symbolic link is not listed" % cn)
+    if n == 0:
+        r.ok("storage::bitcask::utils::sorted_fileids", "file-ness is tested through the path, following links", "src/storage/bitcask/utils.rs", "no link-level file-type call in the listing")
+    return r
